@@ -115,6 +115,7 @@ var ungeneratable = []struct {
 	{"unknown-type", `{"type":"foo"}`, false},
 	{"missing-definition", `{"$ref":"#/$defs/DoesNotExist"}`, false},
 	{"missing-file", `{"$ref":"does-not-exist.json"}`, false},
+	{"missing-file-named-like-a-declared-type", `{"$ref":"ZzDeclared"}`, false},
 	{"malformed-pointer", `{"$ref":"#/not/a/definition"}`, false},
 	{"empty-enum", `{"enum":[]}`, false},
 	{"object-enum-value", `{"enum":[{"a":1}]}`, false},
@@ -189,7 +190,8 @@ func injectInto(t *rapid.T, c *core.Ctx, f *model.File, elem jv.V, defOnly bool)
 	walk(root, nil, 0, false)
 	// items of a DECLARED array type and the value schema of a map type go through other code paths
 	sites = append(sites, site{nil, "definition-array-items"}, site{nil, "map-additional-properties"}, site{nil, "definition-nested-array-items"},
-		site{nil, "definition-properties-next-to-allOf"}, site{nil, "definition-properties-next-to-anyOf"}, site{nil, "definition-property-items-next-to-allOf"})
+		site{nil, "definition-properties-next-to-allOf"}, site{nil, "definition-properties-next-to-anyOf"}, site{nil, "definition-property-items-next-to-allOf"},
+		site{nil, "later-branch-property-declared-by-an-earlier-branch"})
 	var usable []site
 	for _, s := range sites {
 		if defOnly && s.kind != "definition" {
@@ -197,6 +199,10 @@ func injectInto(t *rapid.T, c *core.Ctx, f *model.File, elem jv.V, defOnly bool)
 		}
 		if strings.HasPrefix(s.kind, "branch-element") && !isRef {
 			continue // a whole branch is only replaced by an unresolvable reference (branches are object schemas)
+		}
+		if s.kind == "later-branch-property-declared-by-an-earlier-branch" && c.Avoid("branches.later_same_named_property_dropped") {
+			c.ExcludedMap()["branches.later_same_named_property_dropped"]++
+			continue
 		}
 		if strings.HasPrefix(s.kind, "branch-") && c.Avoid("branches.unresolvable_ref") {
 			c.ExcludedMap()["branches.unresolvable_ref"]++
@@ -250,6 +256,17 @@ func injectInto(t *rapid.T, c *core.Ctx, f *model.File, elem jv.V, defOnly bool)
 			defs = jv.ObjV()
 		}
 		return root.Set(dkw, defs.Set("InjectedComp", comp)), &injection{site: s.kind}
+	case "later-branch-property-declared-by-an-earlier-branch":
+		// allOf[{x: string}, {x: <fault>}]: the faulty schema is a property of an input schema like any other
+		props, _ := root.Get("properties")
+		if props.K != jv.Obj {
+			props = jv.ObjV()
+		}
+		br := func(x jv.V) jv.V {
+			return jv.ObjV(jv.Field("type", jv.StrV("object")), jv.Field("properties", jv.ObjV(jv.Field("x", x))))
+		}
+		comp := jv.ObjV(jv.Field("allOf", jv.ArrV(br(jv.ObjV(jv.Field("type", jv.StrV("string")))), br(elem))))
+		return root.Set("properties", props.Set("zzInjectedOverlap", comp)), &injection{site: s.kind}
 	case "map-additional-properties":
 		props, _ := root.Get("properties")
 		if props.K != jv.Obj {
@@ -501,6 +518,15 @@ func TestC18(t *testing.T) {
 			if sw := map[string]string{"empty-definition-name": "refs.empty_definition_name", "mixed-enum-with-object-value": "enums.mixed_with_non_primitive_value", "mixed-enum-with-array-value": "enums.mixed_with_non_primitive_value"}[u.name]; sw != "" && c.Avoid(sw) {
 				c.ExcludedMap()[sw]++
 				u = ungeneratable[0]
+			}
+			if u.name == "missing-file-named-like-a-declared-type" {
+				if c.Avoid("refs.bare_name_equals_declared_type") {
+					c.ExcludedMap()["refs.bare_name_equals_declared_type"]++
+					u = ungeneratable[2]
+				} else {
+					// there is no file ZzDeclared; a definition of that name is declared
+					f.Defs = append(f.Defs, model.Def{Name: "ZzDeclared", Node: &model.Node{Kind: model.KObject, Props: []model.Prop{{Name: "q", Node: &model.Node{Kind: model.KString}}}}})
+				}
 			}
 			mv, inj := injectInto(rt, c, f, jv.MustParse(u.json), u.defOnly)
 			if inj == nil {
